@@ -91,7 +91,7 @@ def map_get_unwrap(hs):
 
 
 def d1(ctx, F):
-    hs = F.one_body(r"^selium_server::server::handle_stream::\{closure#0\}$")
+    hs = K.handle_stream_body(ctx, F)
     ctx.touch(hs)
     sends = frame_sends(hs)
     oks = [a for a, v in sends if v == "Ok"]
@@ -260,7 +260,7 @@ def d3(ctx, F):
 def d4(ctx, F):
     """refusals actually reach the peer: every Frame::Error built by the stream handler (or its helpers) is handed to SinkExt::send and that
     future is awaited — `feed` / `start_send` only buffer and the buffer is discarded when the stream is dropped"""
-    hs = F.one_body(r"^selium_server::server::handle_stream::\{closure#0\}$")
+    hs = K.handle_stream_body(ctx, F)
     region = [b for b in F.region([hs]).values() if b.crate == "selium_server" and "::topic::" not in b.path and "::sink::" not in b.path]
     n = 0
     for b in sorted(region, key=lambda b: b.path):
@@ -299,3 +299,11 @@ def run(ctx):
     # a live requestor must not be displaced by a newcomer (its stream would be dropped without any frame): id rules of C02.D1
     from . import c02
     c02.d1(ctx, F)
+    # routers, path-sensitively: no frame sequence / peer failure reaches an unwrap (K2); a peer that was accepted or owed a refusal is
+    # never dropped without its frame and close (K1 on the rejection slot, K10, K11); a request that could not be handed over is not kept
+    # to be replayed against the next replier (K9 — one over-limit tagged request would otherwise unbind every replier in turn);
+    # nothing accepted is dropped on the floor (K13)
+    from . import routers
+    for which in ("pubsub", "reqrep"):
+        routers.report(ctx, F, which, "C11", lambda f: f.kind in ("K1", "K2", "K9", "K10", "K11", "K13"))
+        ctx.ok("C11.pollai", "%s router explored for abandoned peers / poisoned slots" % which)
